@@ -9,6 +9,10 @@ CHECKS = {
   text="Lean 4 theorems (Props/C10.lean) about a hand model of toml_write's string/key writer and toml_edit's string/key parsers: for every byte string, every offered style parses back to exactly the string (induction, no length bound); metrics theorems; default style total. Tables (byte classes, escape arms, thresholds) are regenerated from /repo and re-proved equal to the ABNF spec each run; the hand-written control flow is tied by a differential run (exhaustive short strings over the 14 byte classes x 12 styles + byte sweep + long quote runs) of the compiled model against the real crates, plus the direct oracle parse(write(s)) = s on the implementation.",
   note="Trusted: Lean kernel (axioms propext/Classical.choice/Quot.sound only), translate.py, the differential correspondence (sampling), std::fmt/str. Modelled by hand: control flow of write_toml_value, ValueMetrics/KeyMetrics::calculate, basic_string, ml_basic_body, literal_string, ml_literal_body, simple_key.",
   technique="Lean 4 proof (round-trip by induction) + table re-proof + differential correspondence", design="7/C10"),
+ "C12": dict(
+  text="Lean 4 models of both date-time parsers (toml_edit parser/datetime.rs with winnow backtrack/cut semantics; toml_datetime FromStr) and of Display; theorems in Props/C12.lean (range enforcement, agreement of the two parsers on every byte string, print/parse round trip for every in-range value, truncation of the fraction); range bounds, digit counts, month-length arms, SCALE, offset range and format strings are regenerated from /repo and re-proved each run; differential run of the compiled models against both real parsers and the printer on exhaustive field-edge strings, all single-edit mutations of seed date-times over the date-time alphabet, random multi-edit mutations and in-range values, plus three direct oracles on the implementation (standalone = document parser; both = an independent regex+range reference of the grammar; parse(print(x)) = x).",
+  note="Trusted: Lean kernel, translate.py, differential correspondence (sampling), std integer formatting ({:02}/{:04}/{:09}) modelled as zero padding. Non-ASCII input is modelled on bytes (both parsers reject it).",
+  technique="Lean 4 proof (two-model agreement, round trip) + table re-proof + differential correspondence", design="7/C12"),
 }
 
 NA = {}
